@@ -481,6 +481,48 @@ fn rand(
             let at = rng.below(h.ops.len() / 3 + 1);
             h.ops.splice(at..at, storm);
         }
+        if i % 128 == 9 {
+            // scale: more than a thousand wakers registered at once (by as many pending subscribers, or by a few
+            // that are polled again and again), then an update or the close - every one of them is owed a wake
+            h.many = 2100;
+            h.same_waker = false;
+            let subs = if rng.chance(1, 2) { rng.range(1030, 2000) } else { rng.range(2, 6) };
+            let mut storm: Vec<OOp> = (0..subs).map(OOp::Subscribe).collect();
+            for k in 0..subs {
+                storm.push(OOp::Poll(k));
+            }
+            if subs < 1000 {
+                for _ in 0..rng.range(1100, 2500) {
+                    storm.push(OOp::Poll(rng.below(subs)));
+                }
+            }
+            storm.push(if rng.chance(1, 2) { OOp::DropOwner(0) } else { OOp::Set(0, gen_val(&mut rng)) });
+            for k in 0..subs {
+                storm.push(OOp::Poll(k));
+            }
+            // nothing that adds owners before the storm: the close must be the close
+            h.ops.retain(|o| !matches!(o, OOp::Clone(_) | OOp::Upgrade(_) | OOp::CloneFromOther(_) | OOp::HandlesUnderGuard(..)));
+            h.ops.truncate(12);
+            h.ops.extend(storm);
+        }
+        if i % 128 == 41 && shared {
+            // scale: hundreds to thousands of handles alive at once, then released newest-first (and in other
+            // orders), the counts compared after every single step
+            h.many = 2100;
+            let n = rng.range(520, 2000);
+            let mut storm: Vec<OOp> = (0..n).map(|_| OOp::Clone(0)).collect();
+            storm.push(OOp::Subscribe(0));
+            let newest_first = rng.chance(2, 3);
+            let keep = rng.range(1, n / 3);
+            for k in (keep..=n).rev() {
+                storm.push(OOp::DropOwner(if newest_first { k } else { rng.below(k + 1) }));
+            }
+            storm.push(OOp::Clone(0));
+            storm.push(OOp::Poll(0));
+            h.ops.retain(|o| !matches!(o, OOp::DropOwner(_) | OOp::DropOwnerUnwinding(_) | OOp::CloneFromOther(_) | OOp::HandlesUnderGuard(..) | OOp::Clone(_) | OOp::Upgrade(_)));
+            h.ops.truncate(10);
+            h.ops.extend(storm);
+        }
         if i % 8 == 7 {
             // many subscribers, clones and weak references at once (and so many registered wakers)
             h.many = 16;
